@@ -389,6 +389,8 @@ fn confirm_child(v: &Value) -> Option<String> {
     if let Some(mut so) = child.stdout.take() {
         let _ = so.read_to_string(&mut out);
     }
+    // the case is written again (under the property's name) if it is reported
+    let _ = std::fs::remove_file(&path);
     use std::os::unix::process::ExitStatusExt;
     let st = st?;
     if !out.contains("ORACLE-DONE") && st.code() != Some(0) {
